@@ -247,7 +247,7 @@ impl Engine for C14 {
             ],
             real_components: &["from_tagged_slice / from_slice / to_tagged_vec / to_vec of the six taggable coset types; ciborium underneath"],
             stub_components: &["originators (harness generators + harness CBOR writer)", "wire (tag-head rewriting, misdelivery)"],
-            fault_kinds: &["misdeliver(all 12 endpoints)", "tag-rewrite(number x width)", "own-tag(wide head)", "double-tag", "malformed-head (reserved additional info, wrong major type)", "untagged", "size-ladder bodies (2^k - d bytes, k = 8..24 quick / 8..26 thorough)"],
+            fault_kinds: &["misdeliver(all 12 endpoints)", "tag-rewrite(number x width)", "own-tag(wide head)", "double-tag", "malformed-head (reserved additional info, wrong major type)", "tag-over-bstr-wrapped-body", "untagged", "size-ladder bodies (2^k - d bytes, k = 8..24 quick / 8..26 thorough)"],
             design_ref: "DESIGN.md section 5.4",
         }
     }
@@ -541,7 +541,18 @@ impl Engine for C14 {
                 .collect::<HResult<Vec<u64>>>()?,
             None => vec![],
         };
-        let all = deliveries(own, &extra);
+        let mut all = deliveries(own, &extra);
+        // the body wrapped in a byte string under a tag ("encoded CBOR data item" 24 and others):
+        // still a tagged item, accepted by nobody
+        if !big {
+            for tg in [24u64, 63, 55799, own, 0] {
+                let mut p = refcbor::head(6, tg);
+                p.extend(refcbor::head(2, u.len() as u64));
+                all.push(Delivery { prefix: p, tags: vec![], kind: "tag-over-bstr-wrapped-body" });
+            }
+            // and the bare byte-string wrapping without any tag
+            all.push(Delivery { prefix: refcbor::head(2, u.len() as u64), tags: vec![], kind: "tag-over-bstr-wrapped-body" });
+        }
         let narrowed = |ep: &Endpoint, d: &Delivery| -> Trace {
             let mut n = t.clone();
             n.steps.retain(|s| s.kind != "fault");
